@@ -214,8 +214,9 @@ class InitNonloc:
         eminus.config.backend = "numpy"
         eminus.config.verbose = "critical"
         bad = []
-        for sp in (["Ga", "H"], ["Ac"], ["H", "Ga"]):
-            pos = [[0.1, 0.2, 0.3], [0.3, 0.1, 3.2]][: len(sp)]
+        # (two different species that BOTH carry projectors in the same channels: Si / C / O)
+        for sp in (["Ga", "H"], ["Ac"], ["H", "Ga"], ["Si", "C"], ["C", "O", "C"]):
+            pos = [[0.1, 0.2, 0.3], [0.3, 0.1, 3.2], [2.9, 2.2, 0.4]][: len(sp)]
             at = Atoms(sp, pos, ecut=3, a=[[8.0, 0.5, 0.0], [0.0, 7.5, 0.3], [0.2, 0.0, 9.0]])
             at.kpts.kmesh = [2, 1, 1]
             scf = SCF(at, verbose="critical")
